@@ -1,6 +1,6 @@
 (* C24 — Consensus decisions do not depend on scheduling or process-local
    randomness.  Property theorems only. *)
-From Coq Require Import ZArith List Bool Sorting.Permutation Floats.
+From Coq Require Import ZArith NArith List Bool Sorting.Permutation Floats.
 From ELA Require Import lib.Graph proof.Graph gen.C24_graph model.C24_Select proof.C24_Select proof.C24_Static.
 Import ListNotations.
 
@@ -72,6 +72,18 @@ Theorem C24_map_order_float_sums_integral :
 Proof. exact float_map_sums_integral. Qed.
 Print Assumptions C24_map_order_float_sums_integral.
 
+(* Map iteration order never reaches an ordered consensus result: over the
+   table regenerated from the source, every slice that a consensus function
+   fills while ranging over a map (or over a slice that is itself in map order,
+   followed through returns and arguments within the consensus packages) is
+   sorted before every use (0), unused (1), handed on to where it is analysed
+   (2-4), or one of the classified order-insensitive consumers (5) — never
+   consumed unsorted (6). *)
+Theorem C24_map_order_sites_sorted :
+  forall f v, In (f, v) C24_graph.map_order_sites -> (v <= 5)%N.
+Proof. exact map_order_sites_sorted. Qed.
+Print Assumptions C24_map_order_sites_sorted.
+
 (* Non-vacuity: the anchors (getCandidateIndexAtRandom,
    getRandomDposV2Producers, getSortedProducers) are sources with out-edges,
    bad nodes exist, the reachability search completed; a tie is broken by key. *)
@@ -81,7 +93,8 @@ Example C24_static_nonvacuous :
   /\ negb (Nat.eqb (length C24_graph.anchors) 0) = true
   /\ negb (Nat.eqb (length C24_graph.bad) 0) = true
   /\ (match reach_set C24_graph.graph C24_graph.sources with Some _ => true | None => false end) = true
-  /\ negb (Nat.eqb (length C24_graph.float_map_sums) 0) = true.
+  /\ negb (Nat.eqb (length C24_graph.float_map_sums) 0) = true
+  /\ negb (Nat.eqb (length (filter (fun s => N.eqb (snd s) 0) C24_graph.map_order_sites)) 0) = true.
 Proof. exact static_nonvacuous. Qed.
 
 (* with non-integer addends float64 addition is order dependent (binary64,
